@@ -233,3 +233,18 @@ Theorem C02_supports_minting_is_source : forall t c clock,
   Src_token.SessionToken_supports_minting_src (Src_refine.inject_tok t) (VStr (Src_refine.cls_name c)) clock = Ok (VBool (supports_minting t c)).
 Proof. exact Src_refine.supports_minting_refines. Qed.
 Print Assumptions C02_supports_minting_is_source.
+
+(* --- round 12: the authentication-age test of the cookie path is the source's AuthnEvent.is_valid --- *)
+From Verif Require Gen.Src_authn Proofs.Src_refine_authn.
+Theorem C02_authn_event_is_valid_is_source : forall vu now clock,
+  Src_authn.AuthnEvent_is_valid_src (Src_refine_authn.inject_authn_event vu) (VInt now) (VInt clock)
+  = Ok (VBool (Src_refine_authn.is_valid_at now clock <? vu)%Z).
+Proof. exact Src_refine_authn.authn_event_is_valid_refines. Qed.
+Print Assumptions C02_authn_event_is_valid_is_source.
+Theorem C02_stale_authentication_asks_login : forall c s prev g u cl sc redir fresh,
+  nth_error (grants s) prev = Some g -> g_removed g = false -> g_client g = cl ->
+  Src_authn.AuthnEvent_is_valid_src (Src_refine_authn.inject_authn_event (g_valid_until g)) (VInt 0) (VInt (now s)) = Ok (VBool false) ->
+  do_authorize_cookie c s prev u cl sc redir fresh = (s, OLogin).
+Proof. exact Src_refine_authn.stale_authentication_asks_login. Qed.
+Print Assumptions C02_stale_authentication_asks_login.
+(* --- end round 12 --- *)
